@@ -145,6 +145,7 @@ func (w *World) IdentityKeys(id string) *ValidatorKeys {
 
 // NewEngine builds world, cluster and replicas from the trace header.
 func NewEngine(tr *Trace, replay bool, policy SitePolicy, rng *rand.Rand) (*Engine, error) {
+	MapSites = map[string]int{}
 	w := BuildWorld(tr.Seed, tr.Knobs)
 	e := &Engine{W: w, Trace: tr, Replay: replay, Policy: policy, Rng: rng, Stats: NewStats()}
 	e.C = NewCluster(w, e)
@@ -352,7 +353,13 @@ func (e *Engine) DoChecks(st *Step) {
 }
 
 // Close releases the cluster.
-func (e *Engine) Close() { e.C.Close() }
+func (e *Engine) Close() {
+	for site, n := range MapSites {
+		e.Stats.Probes["map-loop>=2keys "+site] += n
+	}
+	MapSites = map[string]int{}
+	e.C.Close()
+}
 
 // Fingerprint hashes the run's event classes (for distinct counting).
 func (s *Stats) Fingerprint() string {
